@@ -324,7 +324,9 @@ def rand_int_val(rng, ft):
 
 
 def real_natural(ft):
-    return (ft[1] == 32 and ft[2] == 32) or (ft[1] == 64 and ft[2] == 64)
+    # documented C type of a real field type is float / double whatever its alignment
+    # (S1 in DESIGN.md was repaired by a fix: commit; the harness follows the documentation)
+    return True
 
 
 def rand_val(rng, ft, maxlen=4):
